@@ -42,7 +42,7 @@ class SkipStatement(BaseException):
 
 class Env:
     __slots__ = ("locals", "parent", "func", "globals_", "owner", "cells", "self_arg", "exc_stack",
-                 "qualname", "loop_ordinal", "fnode")
+                 "qualname", "loop_ordinal", "fnode", "nonlocals")
 
     def __init__(self, locals_, parent, func, globals_, owner, cells, qualname):
         self.locals = locals_
@@ -56,6 +56,7 @@ class Env:
         self.qualname = qualname
         self.loop_ordinal = 0
         self.fnode = None
+        self.nonlocals = None       # names declared nonlocal in this activation
 
 
 _MISSING = object()
@@ -107,6 +108,7 @@ class Interp:
         self.declared_mutable = {}
         self.depth = 0
         self.max_loop = 300
+        self.specs_applied = False      # a loop specification of the unit has found its loop (on any path so far)
         self.log_calls = 0
         self.local_class_models = {}
         self.local_function_models = {}
@@ -637,6 +639,16 @@ class Interp:
                 return self.native(f, *args, **kwargs)
             raise Unsupported("call of external function %s.%s with symbolic arguments"
                               % (f.__module__, f.__qualname__))
+        if type(f).__name__ == "_lru_cache_wrapper" and isinstance(getattr(f, "__wrapped__", None), types.FunctionType) \
+                and self.is_repo_function(f.__wrapped__):
+            # functools.lru_cache / cache on a repository function: the call is the call of the wrapped function as long
+            # as its result cannot be told apart from a fresh one (a shared mutable result would alias between calls)
+            r = self.call(f.__wrapped__, args, kwargs)
+            if isinstance(r, (list, dict, set, bytearray, SObj, SymSet)) or (isinstance(r, tuple) and any(
+                    isinstance(x, (list, dict, set, bytearray, SObj, SymSet)) for x in r)):
+                raise Unsupported("lru_cache on %s, which returns a mutable object (aliasing between calls is not modelled)"
+                                  % f.__wrapped__.__qualname__)
+            return r
         if isinstance(f, type):
             return self.call_class(f, args, kwargs)
         m = models.lookup_builtin(f)
@@ -841,8 +853,8 @@ class Interp:
         loc = self.bind_args(node.args, c.defaults, c.kwdefaults, args, kwargs, c.qualname)
         env = Env(loc, c.env, c.env.func, c.globals_, c.owner, c.env.cells, c.qualname)
         env.self_arg = c.env.self_arg
-        if not isinstance(node, ast.Lambda) and self.is_generator_node(node):
-            raise Unsupported("nested generator function")
+        if not isinstance(node, ast.Lambda) and self.is_generator_node(node) and not getattr(c, "_run_now", False):
+            return GenObj(c, args, kwargs)      # run in line where it is consumed (yield from)
         return self.run_body(node, env)
 
     def call_class(self, cls, args, kwargs):
@@ -925,6 +937,12 @@ class Interp:
         if g.started:
             raise Unsupported("generator object resumed twice")
         g.started = True
+        if isinstance(g.func, Closure):
+            node = g.func.node
+            loc = self.bind_args(node.args, g.func.defaults, g.func.kwdefaults, g.args, g.kwargs, g.func.qualname)
+            env = Env(loc, g.func.env, g.func.env.func, g.func.globals_, g.func.owner, g.func.env.cells, g.func.qualname)
+            env.self_arg = g.func.env.self_arg
+            return self.run_body(node, env)
         key = self.key_of(g.func)
         c = self.contracts.get(key)
         if c is not None:
@@ -1068,7 +1086,15 @@ class Interp:
         raise Unsupported("global statement")
 
     def s_Nonlocal(self, s, env):
-        raise Unsupported("nonlocal statement")
+        for name in s.names:
+            e = env.parent
+            while e is not None and name not in e.locals:
+                e = e.parent
+            if e is None:
+                raise Unsupported("nonlocal %s: the binding lives in a cell of a real function" % name)
+        if env.nonlocals is None:
+            env.nonlocals = set()
+        env.nonlocals.update(s.names)
 
     def s_Import(self, s, env):
         import importlib
@@ -1112,6 +1138,14 @@ class Interp:
             if n > self.max_loop:
                 raise Unsupported("loop at %s:%d exceeds %d iterations without an invariant"
                                   % (env.qualname, s.lineno, self.max_loop))
+            if n > 48 and self.loop_specs and not self.specs_applied:
+                # the unit brings loop specifications, none has found its loop, and a loop is being unrolled at length:
+                # the loop the specification was written for is no longer recognisable (moved behind a local helper,
+                # say).  Unrolling it against an unbounded environment would only exhaust the budget
+                from .sym import UnsupportedUnit
+                raise UnsupportedUnit("none of the unit's loop specifications (%s) found its loop, and the loop at %s:%d "
+                                      "is being unrolled beyond 48 iterations"
+                                      % (", ".join(sorted(v.name for v in self.loop_specs.values())), env.qualname, s.lineno))
             try:
                 self.exec_block(s.body, env)
             except BreakEx:
@@ -1143,16 +1177,31 @@ class Interp:
         return idx
 
     @staticmethod
-    def _mentions(stmt, names):
+    def _names_in(node):
+        seen = set()
+        for x in ast.walk(node):
+            if isinstance(x, ast.Name):
+                seen.add(x.id)
+            elif isinstance(x, ast.Attribute):
+                seen.add(x.attr)
+        return seen
+
+    def _mentions(self, stmt, names, fnode=None):
+        """does the statement mention all the names - directly, or through a function defined locally in `fnode` that it
+        mentions (a loop whose body was partly moved into a nested helper)?"""
         seen = getattr(stmt, "_mentioned", None)
         if seen is None:
-            seen = set()
-            for x in ast.walk(stmt):
-                if isinstance(x, ast.Name):
-                    seen.add(x.id)
-                elif isinstance(x, ast.Attribute):
-                    seen.add(x.attr)
-            stmt._mentioned = seen
+            seen = self._names_in(stmt)
+            if fnode is not None:
+                local_defs = {x.name: x for x in ast.walk(fnode)
+                              if isinstance(x, (ast.FunctionDef, ast.AsyncFunctionDef)) and x is not fnode}
+                for nm in list(seen):
+                    d = local_defs.get(nm)
+                    if d is not None and not any(y is stmt for y in ast.walk(d)):
+                        seen |= self._names_in(d)
+                stmt._mentioned = seen
+            else:
+                return all(n in seen for n in names)
         return all(n in seen for n in names)
 
     def _spec_home_intact(self, key, spec):
@@ -1171,7 +1220,7 @@ class Interp:
             fnode = self.node_of(obj)
             self._loop_index_of(fnode)
             loop = fnode._loops.get(key[1])
-            ok = loop is not None and self._mentions(loop, spec.anchor)
+            ok = loop is not None and self._mentions(loop, spec.anchor, fnode)
         except Exception:       # noqa: BLE001
             ok = False
         cache[key] = ok
@@ -1187,20 +1236,20 @@ class Interp:
             return None
         idx = self._loop_index_of(env.fnode)
         spec = self.loop_specs.get((env.qualname, idx.get(id(stmt))))
-        if spec is not None and (not getattr(spec, "anchor", None) or self._mentions(stmt, spec.anchor)):
+        if spec is not None and (not getattr(spec, "anchor", None) or self._mentions(stmt, spec.anchor, env.fnode)):
             return spec
         for key, spec in self.loop_specs.items():
             anchor = getattr(spec, "anchor", None)
-            if not anchor or not self._mentions(stmt, anchor):
+            if not anchor or not self._mentions(stmt, anchor, env.fnode):
                 continue
-            if any(self._mentions(stmt, (a,)) for a in getattr(spec, "avoid", ())):
+            if any(self._mentions(stmt, (a,), env.fnode) for a in getattr(spec, "avoid", ())):
                 continue
             if self._spec_home_intact(key, spec):
                 continue
             # the innermost loop of this function that mentions the anchors
             inner = False
             for other in env.fnode._loops.values():
-                if other is not stmt and self._mentions(other, anchor) and any(x is other for x in ast.walk(stmt)):
+                if other is not stmt and self._mentions(other, anchor, env.fnode) and any(x is other for x in ast.walk(stmt)):
                     inner = True
                     break
             if not inner:
@@ -1209,6 +1258,7 @@ class Interp:
         return None
 
     def exec_loop_with_spec(self, s, env, spec):
+        self.specs_applied = True
         return spec.execute(self, s, env)
 
     def s_For(self, s, env):
@@ -1425,7 +1475,57 @@ class Interp:
         raise Unsupported("class definition inside a function")
 
     def s_Match(self, s, env):
-        raise Unsupported("match statement")
+        subject = self.ev(s.subject, env)
+        for case in s.cases:
+            if self.match_pattern(case.pattern, subject, env):
+                if case.guard is None or self.test(self.ev(case.guard, env)):
+                    self.exec_block(case.body, env)
+                    return
+
+    def match_pattern(self, p, v, env):
+        """structural pattern matching for the patterns that need no protocol beyond ==, is, isinstance, len and indexing;
+        forks on symbolic comparisons; captures bind as the match proceeds (as in CPython)"""
+        if isinstance(p, ast.MatchValue):
+            return self.test(self.compare(ast.Eq, v, self.ev(p.value, env)))
+        if isinstance(p, ast.MatchSingleton):
+            return self.test(self.compare(ast.Is, v, p.value))
+        if isinstance(p, ast.MatchAs):
+            if p.pattern is not None and not self.match_pattern(p.pattern, v, env):
+                return False
+            if p.name is not None:
+                self.store_name(p.name, v, env)
+            return True
+        if isinstance(p, ast.MatchOr):
+            return any(self.match_pattern(q, v, env) for q in p.patterns)
+        if isinstance(p, ast.MatchClass):
+            cls = self.ev(p.cls, env)
+            if p.patterns:
+                if len(p.patterns) == 1 and cls in (int, str, bool, bytes, float, list, tuple, dict, set, frozenset, bytearray):
+                    return self.test(models.b_isinstance(self, v, cls)) and self.match_pattern(p.patterns[0], v, env)
+                raise Unsupported("class pattern with positional sub-patterns (__match_args__)")
+            if not self.test(models.b_isinstance(self, v, cls)):
+                return False
+            for name, q in zip(p.kwd_attrs, p.kwd_patterns):
+                try:
+                    av = self.get_attr(v, name)
+                except RaiseEx as e:
+                    if issubclass(e.cls, AttributeError):
+                        return False
+                    raise
+                if not self.match_pattern(q, av, env):
+                    return False
+            return True
+        if isinstance(p, ast.MatchSequence):
+            if isinstance(v, (str, bytes, bytearray, SBytes)) or not isinstance(v, (list, tuple)):
+                if isinstance(v, (SObj, AbstractValue)) or is_sym(v):
+                    raise Unsupported("sequence pattern on %s" % type(v).__name__) if not is_sym(v) else None
+                return False
+            if any(isinstance(q, ast.MatchStar) for q in p.patterns):
+                raise Unsupported("starred sequence pattern")
+            if len(v) != len(p.patterns):
+                return False
+            return all(self.match_pattern(q, x, env) for q, x in zip(p.patterns, v))
+        raise Unsupported("pattern %s" % p.__class__.__name__)
 
     # ------------------------------------------------------------------ assignment
     def mangle(self, name, env):
@@ -1468,6 +1568,16 @@ class Interp:
             raise Unsupported("assignment target %s" % t.__class__.__name__)
 
     def store_name(self, name, v, env):
+        if env.nonlocals and name in env.nonlocals:
+            e = env.parent
+            while e is not None and name not in e.locals:
+                e = e.parent
+            if e is None:
+                raise Unsupported("nonlocal %s lost its binding" % name)
+            if self.guards:
+                raise Unsupported("conditional store to a nonlocal name")
+            e.locals[name] = v
+            return
         if self.guards and self.guards[-1][2] is env:
             have = name in env.locals
             do, v = self.merge_write(v, env.locals.get(name), have)
